@@ -81,7 +81,10 @@ use std::hash::{BuildHasher, Hash};
 use std::mem;
 
 use hashbrown::hash_map::DefaultHashBuilder;
+#[cfg(not(kani))]
 use hashbrown::raw::RawTable;
+#[cfg(kani)]
+use verif_hooks::table::RawTable;
 use hashbrown::TryReserveError;
 
 use entry::{Entry, EntryPtr, UnhingedEntry};
@@ -94,6 +97,9 @@ mod entry;
 mod error;
 mod iter;
 mod mem_size;
+#[cfg(any(kani, lru_mem_verif))]
+#[path = "/verif/hooks/mod.rs"]
+mod verif_hooks;
 
 /// An LRU (least-recently-used) cache that stores values associated with keys.
 /// Insertion, retrieval, and removal all have average-case complexity in O(1).
